@@ -164,6 +164,8 @@ func (o *oracle) check(env *run5.Env, h hstate, q int) (viols []violation, done 
 				class = "invalid-share-retained"
 			case valid >= q:
 				class = "valid-quorum-present"
+			case env.Finished():
+				class = "finished-before-quorum" // the duty was closed while this object was still collecting shares
 			default:
 				class = "correct-share-missing"
 			}
